@@ -1,48 +1,225 @@
-"""C10 — instantiating parameters equals evaluating them (DESIGN §5 C10)."""
+"""C10 — instantiating parameters equals evaluating them (DESIGN §5 C10).
+
+Written against the normal form (VIEW = 'norm') plus the local normal form of rules/pe.py; conditions are
+on dataflow: which sets the guard compares, which functions the partial evaluation reaches, what the
+result is built from."""
 from .common import *
+from . import pe
+
+VIEW = 'norm'
 
 PI = 'v1::ParametricInstance'; INST = 'v1::Instance'
 FIELDS = ['description', 'objective', 'constraints', 'decision_variables', 'sense', 'constraint_hints', 'removed_constraints', 'decision_variable_dependency']
 
 
 # with_parameters is partial evaluation of every function: the kernels' case tables are part of C10
-RELIES_ON = {'C03': ['C03.linear', 'C03.quadratic', 'C03.polynomial', 'C03.delegate']}
+RELIES_ON = {'C03': ['C03.linear', 'C03.quadratic', 'C03.polynomial', 'C03.delegate', 'C03.exact']}
+
+NARROWING = RESTRICTING + ('intersection', 'difference', 'symmetric_difference', 'retain', 'remove', 'split_off')
+SET_TY = r'(BTreeSet|HashSet)'
+
+
+def local_op(l):
+    return {'k': 'copy', 'pl': {'l': l, 'p': []}}
+
+
+# ------------------------------------------------------------------------------------------------
+# `A ⊆ B` tests.  Every entry yields (bool local, bb, polarity, A operand, B operand, idiom) with
+#      (local == polarity)  <=>  A ⊆ B
+# ------------------------------------------------------------------------------------------------
+def subset_tests(ctx, body):
+    out = []
+    items = pe.loop_items(body)
+    for c in body.calls:
+        # (1) a.is_subset(&b)                      (2) b.is_superset(&a)
+        if c.item == 'is_subset' and re.search(SET_TY, c.name): out.append((c.dst['l'], c.bb, True, c.args[0], c.args[1], 'a.is_subset(b)'))
+        if c.item == 'is_superset' and re.search(SET_TY, c.name): out.append((c.dst['l'], c.bb, True, c.args[1], c.args[0], 'b.is_superset(a)'))
+        # (3) a.difference(&b).next().is_none()    (4) .next().is_some() [negated]    (5) a.difference(&b).count() == 0
+        if c.item == 'difference' and re.search(SET_TY, c.name):
+            for c2 in body.calls:
+                if c2.args and pe.root_of(body, c2.args[0]) == c.dst['l']:
+                    if c2.item == 'next':
+                        for c3 in body.calls:
+                            if c3.item in ('is_none', 'is_some') and c3.args and pe.root_of(body, c3.args[0]) == c2.dst['l']:
+                                out.append((c3.dst['l'], c3.bb, c3.item == 'is_none', c.args[0], c.args[1], 'a.difference(b).next().%s()' % c3.item))
+                    if c2.item == 'count':
+                        for bi, st in body.stmts():
+                            rv = st['rv']
+                            if rv['k'] == 'bin' and rv['op'] in ('Eq', 'Ne', 'Gt') and any(o['k'] in ('copy', 'move') and T.expr(body, o)[0] == 'call' and T.expr(body, o)[4] == c2.bb for o in rv['ops']) \
+                                    and any(o['k'] == 'const' and o['v'] == '0_usize' for o in rv['ops']):
+                                out.append((st['dst']['l'], bi, rv['op'] == 'Eq', c.args[0], c.args[1], 'a.difference(b).count() %s 0' % rv['op']))
+    # (6) m.is_empty()  /  m.len() == 0   where m collects the elements of a that b does not contain
+    #        for x in &a { if !b.contains(x) { m.push(*x) } }   ==   a.iter().filter(|x| !b.contains(x)).cloned().collect()
+    diffs = difference_collections(ctx, body, items)
+    for c in body.calls:
+        if c.item == 'is_empty' and c.args:
+            m = pe.root_of(body, c.args[0])
+            if m in diffs: out.append((c.dst['l'], c.bb, True, local_op(diffs[m][0]), diffs[m][1], 'missing.is_empty()'))
+        if c.item == 'len' and c.args and pe.root_of(body, c.args[0]) in diffs:
+            m = pe.root_of(body, c.args[0])
+            for bi, st in body.stmts():
+                rv = st['rv']
+                if rv['k'] == 'bin' and rv['op'] in ('Eq', 'Ne', 'Gt') and any(o['k'] == 'const' and o['v'] == '0_usize' for o in rv['ops']) \
+                        and any(o['k'] in ('copy', 'move') and len(T.expr(body, o)) > 4 and T.expr(body, o)[0] == 'call' and T.expr(body, o)[4] == c.bb for o in rv['ops']):
+                    out.append((st['dst']['l'], bi, rv['op'] == 'Eq', local_op(diffs[m][0]), diffs[m][1], 'missing.len() %s 0' % rv['op']))
+    # (7) a.iter().all(|x| b.contains(x))    (8) a.iter().any(|x| !b.contains(x)) [negated]
+    #     normal form: a loop over a that leaves with one bool constant where b does not contain the element, with the other when exhausted
+    for lo in T.for_loops(body):
+        a = items.get(lo[0].dst['l'])
+        if a is None or restricted(ctx, body, lo): continue
+        nxt, header, some_bb, none_bb, blocks = lo
+        for k in contains_of_item(ctx, body, lo):
+            for g in T.guards_from_call(body, k):
+                if g.false_bb is None or g.true_bb is None: continue
+                reg_f = pe.walk(body, [g.false_bb], stop={header})[0]
+                reg_t = pe.walk(body, [g.true_bb], stop={header})[0]
+                for bi, st in body.stmts():
+                    d = st['dst']; rv = st['rv']
+                    if bi in reg_f and not d['p'] and body.locals[d['l']] == 'bool' and rv['k'] == 'use' and rv['ops'][0]['k'] == 'const' and rv['ops'][0]['v'] in ('true', 'false'):
+                        vf = rv['ops'][0]['v'] == 'true'
+                        defs = body.defs_of(d['l'])
+                        others = [(b2, x) for kk, b2, x in defs if not (kk == 'stmt' and x is st)]
+                        if len(others) != 1 or others[0][0] in blocks and others[0][0] != none_bb: continue
+                        b2, x = others[0]
+                        if 'rv' not in x or x['rv']['k'] != 'use' or x['rv']['ops'][0]['k'] != 'const' or x['rv']['ops'][0]['v'] != ('false' if vf else 'true'): continue
+                        if b2 not in body.reach([none_bb], {header}): continue
+                        if not T.must_pass(body, g.false_bb, {header, b2}, {bi}): continue          # every missing element sets the flag
+                        if any(b3 in reg_t and s3['dst'] == d for b3, s3 in body.stmts()): continue      # a contained element does not
+                        out.append((d['l'], bi, not vf, local_op(a), k.args[0], 'a.iter().%s(|x| %sb.contains(x))' % (('any', '!') if vf else ('all', ''))))
+    return out
+
+
+def restricted(ctx, body, lo, allow=()):
+    """restricting adaptors between the collection and the loop (none may drop elements, except the ones in `allow`)"""
+    si = ctx.S.slice_operand(body, lo[0].args[0])
+    return sorted({x.item for x in si.call_objs if x.item in RESTRICTING and 'Iterator' in (x.trait or '') and not any(x is y for y in allow)})
+
+
+def contains_of_item(ctx, body, lo):
+    """`b.contains(item)` / `b.contains_key(item)` calls on the item of loop `lo`"""
+    out = []
+    for k in body.calls:
+        if k.bb in lo[4] and k.item in ('contains', 'contains_key') and len(k.args) == 2 and lo[0].dst['l'] in ctx.S.slice_operand(body, k.args[1]).locals:
+            out.append(k)
+    return out
+
+
+def difference_collections(ctx, body, items):
+    """local collection m -> (local collection a, operand b) when the only insertions into m are
+    `m.push(x)` / `m.insert(x)` for exactly the elements x of a with !b.contains(x)"""
+    out = {}
+    ins = {}
+    for c in body.calls:
+        if c.item in ('push', 'insert') and re.search(r'(Vec|BTreeSet|HashSet|VecDeque)::<.*>::(push|insert)$', c.name) and len(c.args) == 2:
+            m = pe.root_of(body, c.args[0])
+            if m is not None and m > body.argc: ins.setdefault(m, []).append(c)
+    for m, pushes in ins.items():
+        if len(pushes) != 1: continue
+        p = pushes[0]
+        if any(c is not p and T.MUT_CALL.search(c.name) and c.args and pe.root_of(body, c.args[0]) == m and '&mut' in body.locals[c.arg_local(0) or 0] for c in body.calls): continue
+        los = [lo for lo in T.for_loops(body) if p.bb in lo[4]]
+        if not los: continue
+        lo = min(los, key=lambda l: len(l[4]))
+        a = items.get(lo[0].dst['l'])
+        if a is None or a == m or restricted(ctx, body, lo): continue
+        if lo[0].dst['l'] not in ctx.S.slice_operand(body, p.args[1]).locals: continue
+        for k in contains_of_item(ctx, body, lo):
+            for g in T.guards_from_call(body, k):
+                if g.false_bb is None or g.true_bb is None: continue
+                if p.bb in pe.walk(body, [g.false_bb], stop={lo[1]})[0] and p.bb not in pe.walk(body, [g.true_bb], stop={lo[1]})[0] \
+                        and T.must_pass(body, g.false_bb, {lo[1]}, {p.bb}) and all(body.dominates(k.bb, x) for x in [p.bb]) and T.must_pass(body, lo[2], {lo[1]}, {k.bb}):
+                    out[m] = (a, k.args[0])
+    return out
+
+
+def option_field_projection(ctx, cb, adt, field):
+    """closure `|c| c.<field>.as_mut()` / `.as_ref()`: returns exactly the Option field of its argument (on its only return path)"""
+    rets = cb.ret_assignments()
+    if len(rets) != 1 or rets[0][1] != 'callval': return False
+    c = [x for x in cb.calls if x.bb == rets[0][0]]
+    if c and c[0].item in ('as_mut', 'as_ref', 'as_deref_mut', 'as_deref') and 'Option' in c[0].name:
+        fs, root, calls = T.access_path(cb, c[0].args[0])
+        return root == 2 and fs[-1:] == [(adt, field)] and len(cb.calls) == 1
+    return False
 
 
 def check(ctx):
-    body = ctx.method('C10.anchor/with_parameters', PI, 'with_parameters')
+    body0 = ctx.method('C10.anchor/with_parameters', PI, 'with_parameters')
+    body = pe.lnorm(ctx, body0)
     if body is not None:
         # ---- guard: required ⊆ given, else error
-        def is_subset(c): return c.item == 'is_subset' and 'BTreeSet' in c.name
-        def operands_ok(c):
-            a = ctx.S.slice_operand(body, c.args[0]); b = ctx.S.slice_operand(body, c.args[1])
-            narrowing = sorted({x.item for x in a.call_objs if x.item in RESTRICTING + ('intersection', 'difference', 'symmetric_difference', 'retain', 'remove', 'split_off')})
+        def operands_ok(A, B):
+            a = ctx.S.slice_operand(body, A); b = ctx.S.slice_operand(body, B)
+            narrowing = sorted({x.item for x in a.call_objs if x.item in NARROWING})
             return a.has_field(PI, 'parameters') and a.has_field('v1::Parameter', 'id') and b.has_field('v1::Parameters', 'entries') and not b.has_field(PI, 'parameters') \
                 and not narrowing and not a.has_field(PI, 'objective') and not a.has_field(PI, 'constraints')
-        guard(ctx, 'C10.guard/required-subset-of-given', body, is_subset, True, 'required_ids.is_subset(given_ids)', operand_need=operands_ok)
+        tests = subset_tests(ctx, body)
+        best = None; seen = []
+        for l, bb, pol, A, B, how in tests:
+            for g in T.guards_from_local(body, l, bb):
+                ctx.counters['cfg_paths'] += 1
+                seen.append('%s: %s' % (how, g.describe()))
+                if g.requires(pol) and g.dominates_ok_exits() and operands_ok(A, B): best = (how, g, bb); break
+            if best: break
+        R = 'C10.guard/required-subset-of-given'
+        if best: ctx.ok(R, 'T-GUARD', body.site(best[2]), guard=best[0], shape=best[1].describe())
+        elif not tests: ctx.bad(R, 'T-GUARD', body.name, 'no test `required_ids ⊆ given_ids` found (is_subset / difference / missing.is_empty() / all(contains))', body.site())
+        else: ctx.bad(R, 'T-GUARD', body.name, 'test `required_ids.is_subset(given_ids)` does not guard the Ok-exits with the declared parameter ids on the left and the given ids on the right', body.site(tests[0][1]), seen='; '.join(seen)[:300])
         # ---- partial evaluation applied to objective and to every constraint, with the given values
-        pe_f = [c for c in body.calls if c.item == 'partial_evaluate' and c.is_(trait='Evaluate', self_ty=r'v1::Function$')]
-        pe_c = [c for c in body.calls if c.item == 'partial_evaluate' and c.is_(trait='Evaluate', self_ty=r'v1::Constraint$')]
-        ctx.check(len(pe_f) == 1, 'C10.apply/objective/call', 'T-MUSTCALL', body.name, 'expected one Function::partial_evaluate call, found %d' % len(pe_f), body.site())
-        ctx.check(len(pe_c) == 1, 'C10.apply/constraints/call', 'T-MUSTCALL', body.name, 'expected one Constraint::partial_evaluate call, found %d' % len(pe_c), body.site())
-        for c in pe_f:
-            r = ctx.S.slice_operand(body, c.args[0]); s = ctx.S.slice_operand(body, c.args[1])
-            ctx.check(r.has_field(PI, 'objective'), 'C10.apply/objective/receiver', 'T-CARRY', body.name, 'partial_evaluate receiver is not self.objective', body.site(c.bb))
-            ctx.check(2 in s.params and not s.has_field(PI, 'parameters'), 'C10.apply/objective/state', 'T-CARRY', body.name, 'state passed to partial_evaluate does not derive from the given parameters', body.site(c.bb))
-            errflow_calls(ctx, 'C10.apply/objective/error', body, [c], 'error of partial_evaluate')
-            must_pass_or_none(ctx, 'C10.apply/objective/every-path', body, c, PI, 'objective', 'partially evaluating the objective')
-        loops = loops_over(ctx, body, PI, 'constraints')
-        for c in pe_c:
+        pes = [c for c in body.calls if c.item == 'partial_evaluate' and (c.trait or '').endswith('Evaluate')]
+        def self_is(c, ty): return re.search(ty + '$', c.self_ty or '') is not None or re.fullmatch(r'[A-Z]\w*', c.self_ty or '') is not None
+        oks = body.strict_ok_exits()
+        def common_rules(rule, c):
             s = ctx.S.slice_operand(body, c.args[1])
-            ctx.check(2 in s.params and not s.has_field(PI, 'parameters'), 'C10.apply/constraints/state', 'T-CARRY', body.name, 'state passed to partial_evaluate does not derive from the given parameters', body.site(c.bb))
-            errflow_calls(ctx, 'C10.apply/constraints/error', body, [c], 'error of partial_evaluate')
-            lo = [l for l in loops if c.bb in l[4]]
-            ctx.check(len(lo) == 1, 'C10.apply/constraints/loop', 'T-LOOPMUST', body.name, 'Constraint::partial_evaluate is not inside a loop over self.constraints', body.site(c.bb))
-            for l in lo:
-                loop_must(ctx, 'C10.apply/constraints/every-item', body, l, lambda x: x.bb == c.bb, 'constraint.partial_evaluate')
+            ctx.check(2 in s.params and not s.has_field(PI, 'parameters'), rule + '/state', 'T-CARRY', body.name, 'state passed to partial_evaluate does not derive from the given parameters', body.site(c.bb))
+            pe.errflow_calls(ctx, rule + '/error', body, [c], 'error of partial_evaluate')
+        def loops_of(c, field):
+            return [lo for lo in loops_over(ctx, body, PI, field) if c.bb in lo[4]]
+        def all_items(rule, lo, allow_fn=None):
+            """every item of the loop reaches the call; the iterator drops nothing (except via `allow_fn`)"""
+            si = ctx.S.slice_operand(body, lo[0].args[0])
+            restr = [x for x in si.call_objs if x.item in RESTRICTING and 'Iterator' in (x.trait or '')]
+            bad = sorted({x.item for x in restr if not (allow_fn and allow_fn(x))})
+            ctx.check(not bad, rule + '/all-items', 'T-LOOPMUST', body.name, 'the loop iterator is restricted by %s' % bad, body.site(lo[0].bb))
+        # objective
+        cand = [c for c in pes if self_is(c, 'v1::Function') and ctx.S.slice_operand(body, c.args[0]).has_field(PI, 'objective')]
+        ctx.check(bool(cand), 'C10.apply/objective/call', 'T-MUSTCALL', body.name, 'no Function::partial_evaluate call on self.objective', body.site())
+        for c in cand[:1]:
+            common_rules('C10.apply/objective', c)
+            ls = loops_of(c, 'objective')
+            if ls:
+                # `for f in self.objective.iter_mut()` (possibly chained with the constraints' functions): every item, loop before every Ok-exit
+                lo = min(ls, key=lambda l: len(l[4]))
+                via = {c.bb}
+                ok = T.must_pass(body, lo[2], {lo[1]}, via) and all(body.dominates(lo[1], e) for e in oks)
+                allow = lambda x: is_function_projection(ctx, body, x)
+                bad = sorted({x.item for x in ctx.S.slice_operand(body, lo[0].args[0]).call_objs if x.item in RESTRICTING and 'Iterator' in (x.trait or '') and not allow(x)})
+                ctx.check(ok and not bad, 'C10.apply/objective/every-path', 'T-MUSTCALL', body.name, 'an Ok-exit is reachable without partially evaluating the objective', body.site(c.bb))
+            else:
+                must_pass_or_none(ctx, 'C10.apply/objective/every-path', body, c, PI, 'objective', 'partially evaluating the objective')
+        # constraints: Constraint::partial_evaluate on every element, or Function::partial_evaluate on every element's function
+        cand = []
+        for c in pes:
+            r = ctx.S.slice_operand(body, c.args[0])
+            if not r.has_field(PI, 'constraints'): continue
+            if self_is(c, 'v1::Constraint') and not re.search(r'v1::Function$', c.self_ty or ''): cand.append((c, 'constraint'))
+            elif self_is(c, 'v1::Function') and r.has_field('v1::Constraint', 'function'): cand.append((c, 'function'))
+        ctx.check(bool(cand), 'C10.apply/constraints/call', 'T-MUSTCALL', body.name, 'no partial_evaluate call on the elements of self.constraints', body.site())
+        for c, how in cand[:1]:
+            common_rules('C10.apply/constraints', c)
+            lo = loops_of(c, 'constraints')
+            ctx.check(len(lo) >= 1, 'C10.apply/constraints/loop', 'T-LOOPMUST', body.name, 'partial_evaluate is not inside a loop over self.constraints', body.site(c.bb))
+            for l in sorted(lo, key=lambda l: len(l[4]))[:1]:
+                via = {c.bb}
+                if how == 'function':
+                    # `if let Some(f) = c.function.as_mut() { f.partial_evaluate(..)? }`: a constraint without function has nothing to evaluate
+                    via |= {none for sb, some, none in option_field_tests(body, 'v1::Constraint', 'function')}
+                ok = T.must_pass(body, l[2], {l[1]}, via)
+                ctx.check(ok, 'C10.apply/constraints/every-item', 'T-LOOPMUST', body.name, 'a path through the loop body skips `constraint.partial_evaluate`', body.site(l[0].bb))
+                all_items('C10.apply/constraints/every-item', l, (lambda x: is_function_projection(ctx, body, x)) if how == 'function' else None)
                 r = ctx.S.slice_operand(body, c.args[0])
                 ctx.check(l[0].dst['l'] in r.locals, 'C10.apply/constraints/receiver', 'T-CARRY', body.name, 'receiver is not the loop item', body.site(c.bb))
-                ctx.check(all(body.dominates(l[1], e) for e in body.strict_ok_exits()), 'C10.apply/constraints/dominates', 'T-MUSTCALL', body.name, 'the constraint loop does not dominate the Ok-exit', body.site(c.bb))
+                ctx.check(all(body.dominates(l[1], e) for e in oks), 'C10.apply/constraints/dominates', 'T-MUSTCALL', body.name, 'the constraint loop does not dominate the Ok-exit', body.site(c.bb))
         # ---- nothing else is modified
         writes_only(ctx, 'C10.unchanged/with_parameters', body, {'objective', 'constraints'})
         # ---- carry
@@ -77,4 +254,18 @@ def check(ctx):
                     others = sorted(x for a, x in s.fields if a.endswith(INST) and x != f)
                     ctx.check(not others, 'C10.from/%s/only' % f, 'T-CARRY', fb.name, 'field `%s` also depends on %s' % (f, others), fb.site())
             carry_field(ctx, 'C10.from/parameters', fb, st, 'parameters', not_fields=[(INST, 'parameters')])
+    pe.unmark(ctx)
     ctx.floor('C10.guard', 1); ctx.floor('C10.apply', 12); ctx.floor('C10.carry', 11); ctx.floor('C10.from', 17)
+
+
+def is_function_projection(ctx, body, call):
+    """`.filter_map(|c| c.function.as_mut())`: drops exactly the constraints that have no function (for which
+    Constraint::partial_evaluate does nothing — C03.delegate/Constraint)"""
+    if call.item != 'filter_map' or len(call.args) < 2: return False
+    a = call.args[1]
+    if a['k'] not in ('copy', 'move'): return False
+    for k, bi, d in body.defs_of(a['pl']['l']):
+        if k == 'stmt' and d['rv']['k'] == 'agg' and d['rv']['adt'].startswith('closure:'):
+            cb = ctx.F.bodies.get(d['rv']['adt'][8:])
+            if cb is not None and option_field_projection(ctx, cb, 'v1::Constraint', 'function'): return True
+    return False
